@@ -7,7 +7,7 @@ type WifiConfigurationControl = struct {
 }
 
 func NewWifiConfigurationControl() *WifiConfigurationControl {
-	char := NewBytes(TypeWifiCapabilities)
+	char := NewBytes(TypeWifiConfigurationControl)
 	char.Format = FormatTLV8
 	char.Perms = []string{PermRead, PermWrite, PermEvents}
 
